@@ -77,7 +77,9 @@ func handleALIGNB(params x86genParams, ctx *CodeGenContext) ([]byte, error) {
 	}
 
 	// x86genParams から現在のバイトコード長を取得
-	currentLength := params.MachineCodeLen
+	// 境界に揃えるのはアドレス ($ = ORG + 出力済みバイト数) であり、ファイル内オフセットではない
+	// (pass 1 も LOC = アドレスで計算している)
+	currentLength := int(ctx.DollarPosition) + params.MachineCodeLen
 	paddingSize := (alignBoundary - (currentLength % alignBoundary)) % alignBoundary
 
 	if paddingSize > 0 {
